@@ -1,13 +1,13 @@
 (* C01 — flat-integer interface of the model for the generic OCaml driver, stream "history"
    (wire format: see Codec.v). *)
 From Coq Require Import List ZArith Bool.
-From Verif Require Import Lib.Wire Lib.Vec2 C01.Model C01.Spec C01.Codec.
+From Verif Require Import Lib.Wire Lib.Vec2 C01.Model C01.Spec C01.Root C01.Codec.
 Import ListNotations.
 Open Scope Z_scope.
 
 Definition run_case (inp : list Z) : list Z :=
   let '(sm, dm, ops) := decode inp in
-  flat_map observe (trace (init sm dm) ops).
+  flat_map xobserve (xtrace (xinit sm dm) ops).
 
 Definition prop_case (inp obs : list Z) : Z :=
   let '(sm, dm, ops) := decode inp in
@@ -26,7 +26,35 @@ Definition nontrivial_case (inp : list Z) : bool :=
   wf_init sm dm && wf_history (init sm dm) ops
   && existsb parent_busy (trace (init sm dm) ops).
 
-Definition finding_sig (inp obs : list Z) : Z := 0.
+Fixpoint eq_listZ (a b : list Z) : bool :=
+  match a, b with
+  | [], [] => true
+  | x :: a', y :: b' => (x =? y) && eq_listZ a' b'
+  | _, _ => false
+  end.
+
+(* the first failing clause of the MODEL along a history that obeys the discipline (0: none) *)
+Fixpoint model_code (fuel : nat) (x : xstate) (rest : list op) : Z :=
+  match fuel, rest with
+  | S f, o :: t =>
+      if wf_op (x_s x) o then
+        let x' := xstep x o in
+        let c := if negb (state_code (x_s x') =? 0) then state_code (x_s x') else root_code (x_s x') (x_root x') in
+        if c =? 0 then model_code f x' t else c
+      else 0
+  | _, _ => 0
+  end.
+
+(* sig 3: the tree was rebuilt (ResetQuota / lend or is-parent flag change) while the system or the
+   default quota asked for more than its max: resetRootQuotaUsedAndRequest adds their UNLIMITED
+   Request to the root entry, which keeps the surplus for ever. The shape only explains an
+   observable that is exactly the faithful model's, whose first failing clause is the root's
+   Request (15) and whose history contains such a rebuild. *)
+Definition finding_sig (inp obs : list Z) : Z :=
+  let '(sm, dm, ops) := decode inp in
+  if eq_listZ obs (run_case inp) && negb (benign_history (init sm dm) ops)
+     && (model_code (length ops) (xinit sm dm) ops =? 15)
+  then 3 else 0.
 
 Require Extraction.
 Require Import ExtrOcamlBasic.
